@@ -1,5 +1,569 @@
 package main
 
-import "verifharness/pkg/hx"
+// CFL stream: generated histories over the core flow language of coq/model/Engine.v (generator copied from
+// harness/cmd/engine).  Every history is run on the real engine under each restart pattern; the direct oracle
+// compares the executions with each other (evaluate, main.go) and every execution is written as one case of
+// cases_C02_*.v, where coq/model/Persist.v is run under the same pattern (PersistCorr.v, p_* there and enc* here
+// must stay in step).  The session part of a call's token stream is computed from the marshalled JSON.
 
-func runCFL(o *hx.Opts, rnd *hx.Rand, res *hx.Result) {}
+import (
+	"encoding/json"
+	"fmt"
+	"sort"
+	"strings"
+	"time"
+
+	"github.com/nyaruka/gocommon/urns"
+	"github.com/nyaruka/goflow/assets"
+	"github.com/nyaruka/goflow/assets/static"
+	"github.com/nyaruka/goflow/envs"
+	"github.com/nyaruka/goflow/flows"
+	"github.com/nyaruka/goflow/flows/engine"
+	"github.com/nyaruka/goflow/flows/resumes"
+	"github.com/nyaruka/goflow/flows/triggers"
+
+	"verifharness/pkg/hx"
+)
+
+type Trigger struct {
+	Kind  string // manual | msg | flow_action
+	Text  string
+	Flow  int
+	Batch bool
+}
+
+type Op struct {
+	Kind string // msg | timeout | expiration | dial
+	Text string
+}
+
+type History struct {
+	Assets  *Assets
+	Trigger Trigger
+	Ops     []Op
+}
+
+var env0 = envs.NewBuilder().WithAllowedLanguages("eng").WithDefaultCountry("US").Build()
+
+const parentRunSummary = `{"uuid":"4213ac47-93fd-48c4-af12-7da8218ef09d","flow":{"uuid":"00000001-0000-4000-8000-000000000099","name":"Parent"},
+"contact":{"uuid":"c59b0033-e748-4240-9d4c-e85eb6800151","name":"Bob","created_on":"2018-01-01T12:00:00.000000Z"},"status":"active","results":{}}`
+
+func genTrigger(r *hx.Rand, a *Assets) Trigger {
+	t := Trigger{Kind: "manual", Flow: a.Flows[0].ID}
+	switch r.Intn(5) {
+	case 0, 1:
+		t.Kind = "msg"
+		t.Text = hx.Pick(r, words)
+	case 2:
+		t.Kind = "flow_action"
+	}
+	if r.Chance(1, 10) {
+		t.Flow = a.Flows[r.Intn(len(a.Flows))].ID
+	}
+	if t.Kind != "msg" && r.Chance(1, 3) {
+		t.Batch = true
+	}
+	return t
+}
+
+func genOp(r *hx.Rand) Op {
+	switch r.Intn(12) {
+	case 0:
+		return Op{Kind: "timeout"}
+	case 1:
+		return Op{Kind: "expiration"}
+	case 2:
+		return Op{Kind: "dial"}
+	default:
+		return Op{Kind: "msg", Text: hx.Pick(r, words)}
+	}
+}
+
+func (h *History) scenario(idx int, seed int64) *Scenario {
+	assetsJSON := h.Assets.JSON()
+	o := h.Assets.Opts
+	return &Scenario{
+		Name: fmt.Sprintf("cfl:%d", idx),
+		Seed: seed,
+		LoadAssets: func() (flows.SessionAssets, error) {
+			src, err := static.NewSource(assetsJSON)
+			if err != nil {
+				return nil, err
+			}
+			return engine.NewSessionAssets(env0, src, nil)
+		},
+		NewEngine: func() flows.Engine {
+			return engine.NewBuilder().WithMaxStepsPerSprint(o.MaxSteps).WithMaxResumesPerSession(o.MaxResumes).
+				WithMaxTemplateChars(o.MaxTemplateChars).WithMaxResultChars(o.MaxResultChars).Build()
+		},
+		MakeTrigger: func(sa flows.SessionAssets) (flows.Trigger, error) {
+			contact, err := flows.NewContact(sa, flows.ContactUUID("5d76d86b-3bb9-4d5a-b822-c9d86f5d8e4f"), flows.ContactID(7), "Bob", "eng",
+				flows.ContactStatusActive, nil, time.Date(2019, 1, 1, 0, 0, 0, 0, time.UTC), nil, nil, nil, nil, nil, assets.PanicOnMissing)
+			if err != nil {
+				return nil, err
+			}
+			flowRef := assets.NewFlowReference(assets.FlowUUID(uuidOf(kFlow, h.Trigger.Flow)), fmt.Sprintf("F%d", h.Trigger.Flow))
+			tb := triggers.NewBuilder(env0, flowRef, contact)
+			switch h.Trigger.Kind {
+			case "msg":
+				return tb.Msg(flows.NewMsgIn(flows.MsgUUID("9bf91c2b-ce58-4cef-aacc-000000000000"), urns.NilURN, nil, h.Trigger.Text, nil)).Build(), nil
+			case "flow_action":
+				fb := tb.FlowAction(&flows.SessionHistory{ParentUUID: "8a1a6a3c-2b1c-4f5d-9a3e-1c2d3e4f5a6b", Ancestors: 1, AncestorsSinceInput: 1}, json.RawMessage(parentRunSummary))
+				if h.Trigger.Batch {
+					fb = fb.AsBatch()
+				}
+				return fb.Build(), nil
+			default:
+				mb := tb.Manual()
+				if h.Trigger.Batch {
+					mb = mb.AsBatch()
+				}
+				return mb.Build(), nil
+			}
+		},
+		NumResumes: len(h.Ops),
+		MakeResume: func(sa flows.SessionAssets, i int) (flows.Resume, error) {
+			op := h.Ops[i]
+			switch op.Kind {
+			case "timeout":
+				return resumes.NewWaitTimeout(nil, nil), nil
+			case "expiration":
+				return resumes.NewRunExpiration(nil, nil), nil
+			case "dial":
+				return resumes.NewDial(nil, nil, flows.NewDial(flows.DialStatusAnswered, 10)), nil
+			}
+			return resumes.NewMsg(nil, nil, flows.NewMsgIn(flows.MsgUUID(fmt.Sprintf("9bf91c2b-ce58-4cef-aacc-%012d", i+1)), urns.NilURN, nil, op.Text, nil)), nil
+		},
+		Batch: h.Trigger.Batch,
+		Input: map[string]any{"stream": "cfl", "assets": json.RawMessage(assetsJSON), "options": h.Assets.Opts, "trigger": h.Trigger, "ops": h.Ops},
+		Tags:  []string{"cfl"},
+	}
+}
+
+// ---- token streams ------------------------------------------------------------------------------------------
+
+func failCode(text string) int {
+	switch {
+	case strings.HasPrefix(text, "reached maximum number of steps per sprint"):
+		return 0
+	case strings.Contains(text, "failed to pick a category"):
+		return 1
+	case strings.HasPrefix(text, "child run for flow"):
+		return 2
+	case strings.HasPrefix(text, "can't resume run with missing flow asset"):
+		return 3
+	case strings.HasPrefix(text, "reached maximum number of resumes per session"):
+		return 4
+	case strings.HasPrefix(text, "unable to find resume location"):
+		return 5
+	case strings.HasPrefix(text, "can't resume from node without a router or wait"):
+		return 6
+	case strings.HasPrefix(text, "unable to resolve router exit"):
+		return 7
+	case strings.HasPrefix(text, "can't resume run as node no longer exists"):
+		return 8
+	case strings.HasPrefix(text, "no such flow"):
+		return 10
+	case strings.HasPrefix(text, "can't enter flow"):
+		return 11
+	}
+	return 99
+}
+
+var runStatusCode = map[string]int{"active": 0, "waiting": 1, "completed": 2, "failed": 3, "expired": 4}
+var sessionStatusCode = map[string]int{"active": 0, "waiting": 1, "completed": 2, "failed": 3}
+var flowTypeCode = map[string]int{"messaging": 0, "messaging_background": 1}
+var resumeTypeCode = map[string]int{"": 0, "msg": 1, "wait_timeout": 2, "run_expiration": 3, "dial": 4}
+
+type enc struct{ t []int }
+
+func (e *enc) n(xs ...int) { e.t = append(e.t, xs...) }
+func (e *enc) text(s string) {
+	rs := []rune(s)
+	e.n(len(rs))
+	for _, c := range rs {
+		e.n(int(c))
+	}
+}
+func b2i(b bool) int {
+	if b {
+		return 1
+	}
+	return 0
+}
+
+// canonical value of results produced by a timeout route (an ISO timestamp in the implementation)
+func canonValue(value, category string) string {
+	if category == "Timeout" {
+		return "T"
+	}
+	return value
+}
+
+type eventJSON struct {
+	Type     string `json:"type"`
+	StepUUID string `json:"step_uuid"`
+	Msg      *struct {
+		Text string `json:"text"`
+	} `json:"msg"`
+	Name     string `json:"name"`
+	Value    string `json:"value"`
+	Category string `json:"category"`
+	Flow     *struct {
+		UUID string `json:"uuid"`
+	} `json:"flow"`
+	Terminal       bool   `json:"terminal"`
+	TimeoutSeconds *int   `json:"timeout_seconds"`
+	Text           string `json:"text"`
+}
+
+type stepJSON struct {
+	UUID     string `json:"uuid"`
+	NodeUUID string `json:"node_uuid"`
+	ExitUUID string `json:"exit_uuid"`
+}
+
+type resultJSON struct {
+	Name     string `json:"name"`
+	Value    string `json:"value"`
+	Category string `json:"category"`
+	NodeUUID string `json:"node_uuid"`
+	Input    string `json:"input"`
+}
+
+type runJSON struct {
+	UUID string `json:"uuid"`
+	Flow struct {
+		UUID string `json:"uuid"`
+	} `json:"flow"`
+	Path       []stepJSON            `json:"path"`
+	Events     []json.RawMessage     `json:"events"`
+	Results    map[string]resultJSON `json:"results"`
+	Status     string                `json:"status"`
+	ParentUUID string                `json:"parent_uuid"`
+	ExitedOn   *string               `json:"exited_on"`
+}
+
+type sessionJSON struct {
+	Type    string `json:"type"`
+	Status  string `json:"status"`
+	Trigger struct {
+		Type string `json:"type"`
+		Flow struct {
+			UUID string `json:"uuid"`
+		} `json:"flow"`
+		Batch bool `json:"batch"`
+		Msg   *struct {
+			Text string `json:"text"`
+		} `json:"msg"`
+	} `json:"trigger"`
+	Runs  []runJSON `json:"runs"`
+	Input *struct {
+		Text string `json:"text"`
+	} `json:"input"`
+}
+
+// stepIndex maps a step UUID to (run index, position) over the session JSON
+type stepIndex map[string][2]int
+
+func (e *enc) event(steps stepIndex, raw []byte) {
+	var ev eventJSON
+	if err := json.Unmarshal(raw, &ev); err != nil {
+		e.n(97)
+		return
+	}
+	if ev.StepUUID == "" {
+		e.n(0)
+	} else if p, ok := steps[ev.StepUUID]; ok {
+		e.n(1, p[0], p[1])
+	} else {
+		e.n(1, 999, 999)
+	}
+	switch ev.Type {
+	case "msg_received":
+		e.n(1)
+		e.text(ev.Msg.Text)
+	case "msg_created":
+		e.n(2)
+		e.text(ev.Msg.Text)
+	case "run_result_changed":
+		e.n(3)
+		e.text(ev.Name)
+		e.text(canonValue(ev.Value, ev.Category))
+		e.text(ev.Category)
+	case "flow_entered":
+		e.n(4, idOf(ev.Flow.UUID), b2i(ev.Terminal))
+	case "msg_wait":
+		e.n(5)
+		if ev.TimeoutSeconds == nil {
+			e.n(0)
+		} else {
+			e.n(1, *ev.TimeoutSeconds)
+		}
+	case "wait_timed_out":
+		e.n(6)
+	case "run_expired":
+		e.n(7)
+	case "dial_ended":
+		e.n(8)
+	case "failure":
+		e.n(9, failCode(ev.Text))
+	default:
+		e.n(98)
+		e.text(ev.Type)
+	}
+}
+
+// session renders the marshalled session (the persisted form); returns the step index for the sprint
+func (e *enc) session(js string) (stepIndex, map[string]int, bool) {
+	var s sessionJSON
+	if err := json.Unmarshal([]byte(js), &s); err != nil {
+		e.n(96)
+		return nil, nil, false
+	}
+	runIdx := map[string]int{}
+	steps := stepIndex{}
+	for i, r := range s.Runs {
+		runIdx[r.UUID] = i // a later run with the same UUID overwrites (as a Go map does)
+		for p, st := range r.Path {
+			steps[st.UUID] = [2]int{i, p}
+		}
+	}
+	sc, ok := sessionStatusCode[s.Status]
+	if !ok {
+		sc = 9
+	}
+	ft, ok := flowTypeCode[s.Type]
+	if !ok {
+		ft = 9
+	}
+	e.n(sc, ft)
+	switch s.Trigger.Type {
+	case "manual":
+		e.n(0)
+	case "msg":
+		e.n(1)
+		if s.Trigger.Msg != nil {
+			e.text(s.Trigger.Msg.Text)
+		} else {
+			e.text("")
+		}
+	case "flow_action":
+		e.n(2)
+	default:
+		e.n(9)
+	}
+	e.n(idOf(s.Trigger.Flow.UUID), b2i(s.Trigger.Batch))
+	e.n(len(s.Runs))
+	for i, r := range s.Runs {
+		// the run's own UUID, canonically its position; a duplicate UUID shows as the position of the last holder
+		_ = i
+		e.n(runIdx[r.UUID], idOf(r.Flow.UUID))
+		if r.ParentUUID == "" {
+			e.n(0)
+		} else if pi, ok := runIdx[r.ParentUUID]; ok {
+			e.n(1, pi)
+		} else {
+			e.n(1, 999)
+		}
+		rc, ok := runStatusCode[r.Status]
+		if !ok {
+			rc = 9
+		}
+		e.n(rc, b2i(r.ExitedOn != nil))
+		e.n(len(r.Path))
+		for _, st := range r.Path {
+			e.n(idOf(st.NodeUUID))
+			if st.ExitUUID == "" {
+				e.n(0)
+			} else {
+				e.n(1, idOf(st.ExitUUID))
+			}
+		}
+		e.n(len(r.Events))
+		for _, ev := range r.Events {
+			e.event(steps, ev)
+		}
+		keys := make([]string, 0, len(r.Results))
+		for k := range r.Results {
+			keys = append(keys, k)
+		}
+		sort.Strings(keys)
+		e.n(len(keys))
+		for _, k := range keys {
+			res := r.Results[k]
+			e.text(res.Name)
+			e.text(canonValue(res.Value, res.Category))
+			e.text(res.Category)
+			e.n(idOf(res.NodeUUID))
+			e.text(res.Input)
+		}
+	}
+	if s.Input != nil {
+		e.n(1)
+		e.text(s.Input.Text)
+	} else {
+		e.n(0)
+	}
+	return steps, runIdx, true
+}
+
+func (e *enc) sprint(c *CallObs, steps stepIndex) {
+	// which run logged each sprint event (pointer identity with the run's own event list)
+	owner := map[flows.Event]int{}
+	for ri, r := range c.Sess.Runs() {
+		for _, ev := range r.Events() {
+			owner[ev] = ri
+		}
+	}
+	evs := c.Sprint.Events()
+	e.n(len(evs))
+	for k, ev := range evs {
+		if ri, ok := owner[ev]; ok {
+			e.n(1, ri)
+		} else {
+			e.n(0)
+		}
+		e.event(steps, []byte(c.Events[k]))
+	}
+	segs := c.Sprint.Segments()
+	e.n(len(segs))
+	for _, sg := range segs {
+		e.n(idOf(string(sg.Flow().UUID())), idOf(string(sg.Node().UUID())), idOf(string(sg.Exit().UUID())))
+		e.text(sg.Operand())
+		e.n(idOf(string(sg.Destination().UUID())))
+	}
+}
+
+func callTokens(c *CallObs) []int {
+	e := &enc{}
+	tr := func() { e.n(b2i(c.BatchStart), resumeTypeCode[c.ResumeType], b2i(c.HasParent)) }
+	switch {
+	case c.Outcome == "ok":
+		e.n(0)
+		// the sprint comes first in the stream but needs the step index of the session JSON
+		se := &enc{}
+		steps, _, _ := se.session(c.Session)
+		e.sprint(c, steps)
+		e.n(se.t...)
+		tr()
+	case strings.HasPrefix(c.Outcome, "engine-error:"):
+		var code int
+		fmt.Sscanf(c.Outcome, "engine-error:%d", &code)
+		e.n(1, code)
+		tr()
+	case c.Outcome == "error":
+		e.n(2)
+	case c.Outcome == "panic":
+		e.n(3)
+	default:
+		e.n(5)
+	}
+	return e.t
+}
+
+// ---- Coq ------------------------------------------------------------------------------------------------------
+
+func resumeCoq(op Op) string {
+	switch op.Kind {
+	case "timeout":
+		return "RTimeout"
+	case "expiration":
+		return "RExpiration"
+	case "dial":
+		return "RDial"
+	}
+	return "(RMsg " + hx.Str(op.Text) + ")"
+}
+
+func caseCoq(h *History, ex *Exec) string {
+	var trig string
+	switch h.Trigger.Kind {
+	case "msg":
+		trig = "(TMsg " + hx.Str(h.Trigger.Text) + ")"
+	case "flow_action":
+		trig = "TFlowAction"
+	default:
+		trig = "TManual"
+	}
+	ops := make([]string, 0, len(h.Ops))
+	for i, op := range h.Ops {
+		ops = append(ops, fmt.Sprintf("(%s, %s)", hx.Bool(i < len(ex.Pattern) && ex.Pattern[i]), resumeCoq(op)))
+	}
+	obs := make([]string, 0, len(ex.Calls))
+	for _, c := range ex.Calls {
+		obs = append(obs, hx.List(callTokens(c), func(i int) string { return fmt.Sprint(i) }))
+	}
+	return fmt.Sprintf("{| pc_assets := %s;\n  pc_trigger := %s; pc_flow := %s; pc_batch := %s;\n  pc_ops := [%s];\n  pc_obs := [%s]%%N |}",
+		h.Assets.Coq(), trig, hx.N(h.Trigger.Flow), hx.Bool(h.Trigger.Batch), strings.Join(ops, ";\n    "), strings.Join(obs, ";\n    "))
+}
+
+func runCFL(o *hx.Opts, rnd *hx.Rand, res *hx.Result) {
+	n := o.Count(150, 5000)
+	var file *hx.CoqFile
+	nfile := 0
+	const shard = 80
+	flush := func() {
+		if file != nil {
+			file.Add("].\nDefinition M := Eval vm_compute in mismatches cases.\nPrint M.")
+			file.Save(o, res)
+			file = nil
+		}
+	}
+	header := "From Coq Require Import List NArith ZArith Bool.\nFrom Verif Require Import model.Lang model.Engine model.Persist model.PersistCorr.\nImport ListNotations.\nOpen Scope N_scope.\nDefinition cases : list pcase := ["
+	for i := 0; i < n; i++ {
+		r := rnd.Fork(fmt.Sprintf("cfl%d", i))
+		a := genAssets(r, GenCfg{})
+		h := &History{Assets: a, Trigger: genTrigger(r, a)}
+		for k, nops := 0, r.Intn(8); k < nops; k++ {
+			h.Ops = append(h.Ops, genOp(r))
+		}
+		sc := h.scenario(i, int64(o.Seed)*100019+int64(i))
+		sr := evaluate(o, sc, r.Fork("patterns"), res)
+		key, _ := json.Marshal(sc.Input)
+		nt := nontrivialExec(sr.base)
+		res.Eval(string(key), nt)
+		res.Dist("stream=cfl")
+		if h.Trigger.Batch {
+			res.Dist("cfl:batch-trigger")
+		}
+		res.Dist("cfl:trigger=" + h.Trigger.Kind)
+		if sr.base != nil && len(sr.base.Calls) > 0 {
+			okResumes := 0
+			for _, c := range sr.base.Calls[1:] {
+				if c.Outcome == "ok" {
+					okResumes++
+				}
+			}
+			res.Dist(fmt.Sprintf("cfl:accepted-resumes=%d", okResumes))
+			last := sr.base.Calls[len(sr.base.Calls)-1]
+			if last.Sess != nil {
+				res.Dist(fmt.Sprintf("cfl:runs=%d", min(len(last.Sess.Runs()), 6)))
+			}
+		}
+		if i%53 == 0 {
+			res.Sample(map[string]any{"scenario": sc.Name, "input": sc.Input, "calls": summarizeExec(sr.base)})
+		}
+		for _, ex := range sr.execs {
+			if ex.Harness != "" || len(ex.Calls) == 0 {
+				continue
+			}
+			if file == nil {
+				file = hx.NewCoqFile(fmt.Sprintf("cases_C02_%03d.v", nfile), header)
+				nfile++
+			}
+			sep := ";"
+			if file.N == 0 {
+				sep = " "
+			}
+			file.Add(sep + " " + caseCoq(h, ex))
+			res.Cases = append(res.Cases, hx.Case{File: file.Name, Index: file.N,
+				Input: map[string]any{"scenario": sc.Name, "input": sc.Input, "restart_pattern": patStr(ex.Pattern)}, Impl: summarizeExec(ex)})
+			file.N++
+			if file.N >= shard {
+				flush()
+			}
+		}
+	}
+	flush()
+}
